@@ -3,6 +3,7 @@ import LinOp.C01.ProofsB
 import LinOp.C01.ProofsC
 import LinOp.C01.ProofsD
 import LinOp.C01.ProofsE
+import LinOp.C01.ProofsF
 /-!
 C01 — every operator acts exactly as the dense matrix it represents.  Property theorems only.
 
@@ -766,5 +767,37 @@ example : restrict [4, 1] [1, 3, 2] = [3, 0] := by decide
 example : restrict [2, 1, 3] [1, 3, 2] = [1, 0, 2] := by decide
 example : matmulShape [2, 1, 3] 5 6 [4, 1] 6 7 = some [2, 4, 3, 5, 7] := by decide
 example : matmulShape [2, 1, 3] 5 6 [4, 1] 8 7 = none := by decide
+
+end LinOp.C01
+
+/-! # part F — `BlockLinearOperator.__init__`: the block dimension is MOVED (not swapped) to the last batch position -/
+namespace LinOp.C01
+
+/-- The permutation `(*range(p), *range(p+1, nb), p)` the constructor hands to `_permute_batch` is a permutation of
+the `nb` batch positions, for every number of batch dims and every block position. -/
+theorem blockMove_is_perm {nb p : Nat} (h : p < nb) : (blockMovePerm nb p).Perm (List.range nb) :=
+  blockMovePerm_perm h
+
+/-- It is the list of all positions with `p` removed — the other dims in their original order — followed by `p`. -/
+theorem blockMove_eq_erase_then_block {nb p : Nat} (h : p < nb) :
+    blockMovePerm nb p = (List.range nb).eraseIdx p ++ [p] :=
+  blockMovePerm_eq_eraseIdx h
+
+/-- Hence the base's batch shape after the constructor is the original batch shape with the block dim removed
+(all other dims in order), followed by the block dim: the move keeps the remaining batch dims in order. -/
+theorem blockMove_keeps_order (shape : List Nat) {p : Nat} (h : p < shape.length) :
+    permuteShape shape (blockMovePerm shape.length p) = shape.eraseIdx p ++ [shape[p]] :=
+  permuteShape_blockMove shape h
+
+/-- A swap of the block position with the last batch position (`transpose(block_dim, -3)`) is a different
+permutation as soon as the block dim is two or more positions away from the end (smallest case: 3 batch dims,
+block dim first) — it transposes the remaining batch dims. -/
+theorem blockSwap_differs_nonadjacent : blockSwapPerm 3 0 ≠ blockMovePerm 3 0 ∧ blockSwapPerm 4 1 ≠ blockMovePerm 4 1 := by
+  decide
+
+/-- …while it coincides with the move in the adjacent cases the test-suite uses (checked for 2 and 3 batch dims). -/
+theorem blockSwap_same_adjacent : blockSwapPerm 2 0 = blockMovePerm 2 0 ∧ blockSwapPerm 3 1 = blockMovePerm 3 1 ∧
+    blockSwapPerm 3 2 = blockMovePerm 3 2 := by
+  decide
 
 end LinOp.C01
